@@ -36,6 +36,7 @@ pub fn run_unit_for(ctx: &mut Ctx, unit: u64, prop: &'static str, mk: impl Fn(u6
                 for c in &info.counts {
                     ctx.count(c);
                 }
+                ctx.aux.insert(info.schedule);
                 let nt = if info.nontrivial { Some(Fnv::new().str(&format!("{:?}", case.ops)).get()) } else { None };
                 ctx.done(unit, sub, info.digest, nt);
                 if info.nontrivial && sub == 3 {
